@@ -237,7 +237,7 @@ func (m *Model) findDispatch(r *Run) {
 	if best == nil || len(bestArms) < 5 {
 		// table-driven dispatch: a map / slice literal of {message type, handler}
 		if pk := p.ByPth[pkgWS]; pk != nil {
-			arms, tbl := m.tableArms(pk, isHandlerMethod, map[string]bool{pkgHagallPB: true})
+			arms, tbl := m.tableArms(pk, isHandlerMethod, map[string]bool{pkgHagallPB: true}, false)
 			if len(arms) >= 5 && tbl != nil {
 				// the dispatch function: the one that reads the table and consults the modules
 				for _, fn := range p.All {
@@ -350,7 +350,7 @@ func (m *Model) findModules(r *Run) {
 			}
 			// table-driven module dispatch
 			if len(mi.Arms) == 0 {
-				arms, _ := m.tableArms(pk, isOwn, map[string]bool{pkgHagallPB: true, pkgVikjaPB: true, pkgOdalPB: true, pkgDagazPB: true})
+				arms, _ := m.tableArms(pk, isOwn, map[string]bool{pkgHagallPB: true, pkgVikjaPB: true, pkgOdalPB: true, pkgDagazPB: true}, true)
 				for _, a := range arms {
 					a.Module = mi
 					if a.Method != nil {
@@ -472,7 +472,35 @@ func (m *Model) findLeave(r *Run) {
 			return true
 		})
 		if found {
-			m.Leave = append(m.Leave, fn)
+			// the removal may sit in a piece split off the leave function: a helper with exactly one
+			// call site is part of its caller
+			for hop := 0; hop < 3 && fn.Obj != nil && m.P.isGlue(fn.Obj); hop++ {
+				var caller *Func
+				n := 0
+				for _, g := range m.P.All {
+					ast.Inspect(g.Body, func(nd ast.Node) bool {
+						if id, ok := nd.(*ast.Ident); ok && g.Info().Uses[id] == types.Object(fn.Obj) {
+							n++
+							caller = g
+						}
+						return true
+					})
+				}
+				if n != 1 || caller.Recv == nil {
+					break
+				}
+				if rn, ok := derefNamed(caller.Recv.Type()); !ok || rn != m.Realtime {
+					break
+				}
+				fn = caller
+			}
+			dup := false
+			for _, l := range m.Leave {
+				dup = dup || l == fn
+			}
+			if !dup {
+				m.Leave = append(m.Leave, fn)
+			}
 		}
 	}
 }
@@ -590,6 +618,12 @@ func (m *Model) fillHandler(hi *HandlerInfo) {
 						if id, ok := ast.Unparen(rs.Results[0]).(*ast.Ident); ok && gd.root().decodePtrTargets[gd.Info().Uses[id]] {
 							returnsDecoded = true
 						}
+						// var req T; msg.DataTo(&req); return &req, nil
+						if u, ok := ast.Unparen(rs.Results[0]).(*ast.UnaryExpr); ok && u.Op == token.AND {
+							if id, ok := ast.Unparen(u.X).(*ast.Ident); ok && gd.root().decodeTargets[gd.Info().Uses[id]] {
+								returnsDecoded = true
+							}
+						}
 					}
 					return true
 				})
@@ -621,8 +655,9 @@ func (m *Model) String() string {
 // tableArms: message kinds dispatched through a table instead of a switch — a package-level (or
 // local) map or slice literal whose entries pair a message-type constant with an expression that names
 // exactly one target method (a method expression / method value, possibly wrapped in an adapter call or
-// a small closure). Returns the arms of the largest such table of the package and the table variable.
-func (m *Model) tableArms(pk *packages.Package, isTarget func(*types.Func) bool, constPkgs map[string]bool) ([]Arm, types.Object) {
+// a small closure). Returns the arms of the largest such table of the package and the table variable, or
+// (merge) the arms of all tables whose entries all name a handler.
+func (m *Model) tableArms(pk *packages.Package, isTarget func(*types.Func) bool, constPkgs map[string]bool, merge bool) ([]Arm, types.Object) {
 	info := pk.TypesInfo
 	var targetsIn func(x ast.Node, depth int) []*types.Func
 	targetsIn0 := func(x ast.Expr) []*types.Func { return targetsIn(x, 0) }
@@ -714,7 +749,18 @@ func (m *Model) tableArms(pk *packages.Package, isTarget func(*types.Func) bool,
 					}
 					arms = append(arms, a)
 				}
-				if len(arms) > len(best) {
+				if merge {
+					// several tables consulted one after the other (core kinds, then the module's own):
+					// every table whose entries all name a handler contributes its arms
+					all := len(arms) > 0
+					for _, a := range arms {
+						all = all && a.Method != nil
+					}
+					if all {
+						best = append(best, arms...)
+						bestObj = owner
+					}
+				} else if len(arms) > len(best) {
 					best, bestObj = arms, owner
 				}
 			}
